@@ -87,8 +87,9 @@ Definition repeat_rearms (tr : list ev) : Prop :=
 (* ids are never reused *)
 Definition ids_unique (tr : list ev) : Prop := forall k, count_create k tr <= 1.
 
-(* a callback program that does not cancel its own timer k *)
-Definition keeps (k : Z) (p : prog) : Prop := forall a, In a p -> a <> ACancelSelf /\ a <> ACancel k.
+(* a callback program that neither cancels its own timer k nor stops the owner *)
+Definition keeps (k : Z) (p : prog) : Prop :=
+  forall a, In a p -> a <> ACancelSelf /\ a <> ACancel k /\ a <> AStop.
 
 (* one period of a repeating timer: d passes, the runtime fires k, the owner receives the
    expiry, calls Do and runs the callback (a program of at most n actions) to completion *)
@@ -98,10 +99,11 @@ Fixpoint cycles (m : nat) (k d : Z) (n : nat) : list step_t :=
   match m with O => [] | S m' => cycle k d n ++ cycles m' k d n end.
 
 (* state in which timer k (record t) is a live repeating timer of period d with program p, its
-   next expiry is due within d, and the owner is idle *)
+   next expiry is due within d, and the owner's loop is alive and idle *)
 Record CyclePre (s : st) (k d : Z) (p : prog) (t : timer) : Prop := mkCP {
   cp_cur : cur s = None;
   cp_run : running s = true;
+  cp_up : life_of s = LUp;
   cp_cap : Z.of_nat (length (queue s)) < qcap;
   cp_get : aget k (objs s) = Some t;
   cp_live : t_canceled t = false;
@@ -110,6 +112,27 @@ Record CyclePre (s : st) (k d : Z) (p : prog) (t : timer) : Prop := mkCP {
   cp_prog : t_prog t = p;
   cp_keeps : keeps k p;
   cp_due : exists dl, t_tok t = Pending dl /\ dl <= clock s + d }.
+
+(* ---- the owner's life cycle ---- *)
+
+(* every callback is invoked after the owner's loop goroutine was started and before it ended *)
+Definition callbacks_within_owner_life (tr : list ev) : Prop :=
+  forall k c a t1 t2, tr = t1 ++ ECb k c a :: t2 -> In EStart t1 /\ ~ In ELoopEnd t1.
+
+(* once the loop goroutine has ended nothing of the manager runs any more, anywhere *)
+Definition quiet_event (x : ev) : Prop :=
+  match x with ECb _ _ _ | ERet _ _ | EArm _ _ | EStart | EClose | ELoopEnd => False | _ => True end.
+Definition nothing_after_loop_end (tr : list ev) : Prop :=
+  forall t1 t2, tr = t1 ++ ELoopEnd :: t2 -> forall x, In x t2 -> quiet_event x.
+
+(* the life cycle is walked through once, in order *)
+Fixpoint count_ev (f : ev -> bool) (tr : list ev) : Z :=
+  match tr with [] => 0 | x :: r => (if f x then 1 else 0) + count_ev f r end.
+Definition is_start (x : ev) : bool := match x with EStart => true | _ => false end.
+Definition is_close (x : ev) : bool := match x with EClose => true | _ => false end.
+Definition is_end (x : ev) : bool := match x with ELoopEnd => true | _ => false end.
+Definition life_events (l : life) : Z * Z * Z :=
+  match l with LNew => (0, 0, 0) | LUp => (1, 0, 0) | LDown => (1, 1, 0) | LEnd => (1, 1, 1) end.
 
 (* ---- executable monitor on the implementation's own observations ---- *)
 Record minfo := mkM { m_rep : bool; m_prog : prog; m_cancelled : bool; m_count : Z }.
@@ -136,6 +159,7 @@ Fixpoint m_prog_run (m : mstate) (self : Z) (p : prog) : mstate :=
   | ACancelSelf :: r => m_prog_run (m_cancel m self) self r
   | ACancel j :: r => m_prog_run (m_cancel m j) self r
   | ACreate d rep _ q :: r => m_prog_run (m_create m d rep q) self r
+  | AStop :: r => m_prog_run m self r
   end.
 
 (* one observed callback: allowed?  then apply what the callback program does.
@@ -143,7 +167,13 @@ Fixpoint m_prog_run (m : mstate) (self : Z) (p : prog) : mstate :=
      args_ok                     measured by the harness      C14_args / C14_never_early_args
      negb early                  measured (monotonic clock)   C14_never_early_args
      negb after_cancel           measured (harness' own log)  C14_never_after_cancel
-     on_owner                    measured (goroutine id)      C14_callbacks_only_from_do
+     on_owner                    measured (goroutine id): ran on the goroutine that drains the
+                                 queue, which exists at that moment (bare world: the harness
+                                 goroutine; service world: the loop goroutine of the
+                                 StandardRunService, after Start() and before the loop's end)
+                                                              C14_callbacks_only_from_do,
+                                                              C14_callbacks_within_owner_life,
+                                                              C14_nothing_after_loop_end
      negb (m_cancelled i)        from the op history          C14_monitor_clause_not_cancelled
      n =? m_count i + 1          invocation counter is the running count (definition of cbrecs)
      m_rep i || (m_count i =? 0) from the op history          C14_monitor_clause_oneshot_first
@@ -168,8 +198,6 @@ Fixpoint m_cbs (m : mstate) (l : list cbrec) : bool * mstate :=
   | r :: t => let '(b, m1) := m_cb m r in let '(b2, m2) := m_cbs m1 t in (b && b2, m2)
   end.
 
-Definition rec_key (r : cbrec) : Z := match r with CbRec k _ _ _ _ _ => k end.
-
 Definition m_queued_ok (m : mstate) (l : list Z) : bool :=
   nodupb l && forallb (fun k => match aget k m with
                                 | Some i => negb (m_cancelled i)
@@ -191,6 +219,17 @@ Fixpoint monitor_from (m : mstate) (ops : list op) (bs : list obs) : bool :=
       | ODoAll, BRan l =>
           let '(b1, m1) := m_cbs m l in
           b1 && nodupb (map rec_key l) && monitor_from m1 r br
+      | OSvc, BUnit => monitor_from m r br
+      (* a released loop: whatever it ran, every single callback must be allowed (on the owner,
+         not cancelled, a one-shot for the first time ...) *)
+      | (OStart | ORun), BRan l =>
+          let '(b1, m1) := m_cbs m l in b1 && monitor_from m1 r br
+      (* nobody was released (the model runs nothing here): whatever the implementation ran -
+         before Start(), while the loop is busy, inside Stop() whoever calls it, after the
+         loop's end - is held against the property clause by clause; in particular it must
+         have run on the goroutine that drains the queue, which must exist *)
+      | (OWait _ | OStopSvc _), BWait n l =>
+          let '(b1, m1) := m_cbs m l in (0 <=? n) && b1 && monitor_from m1 r br
       | _, _ => false
       end
   | _, _ => false
